@@ -151,6 +151,9 @@ const BROKEN_PATCHES: &[(&str, &[u8])] = &[
     ("no-final-newline-in-header", b"--- a/f\n+++ b/f"),
     ("rename-to-devnull", b"diff --git a/f b/g\nsimilarity index 90%\nrename from f\nrename to g\n--- a/f\n+++ /dev/null\n@@ -1 +0,0 @@\n-a\n"),
     ("rename-from-devnull", b"diff --git a/f b/g\nrename from f\nrename to g\n--- /dev/null\n+++ b/g\n@@ -0,0 +1 @@\n+a\n"),
+    // the header promises fewer lines than the body has, and the surplus line is a context line
+    ("new-count-too-small", b"--- a/f\n+++ b/f\n@@ -1,3 +1,2 @@\n alpha\n-beta\n+BETA\n gamma\n"),
+    ("old-count-too-small", b"--- a/f\n+++ b/f\n@@ -1,2 +1,3 @@\n alpha\n-beta\n+BETA\n gamma\n"),
 ];
 
 impl Prop for C17 {
